@@ -93,8 +93,14 @@ def run(ctx: Ctx) -> None:
             cfg = CFG(fn)
             rets = [n for n in cfg.nodes if n.kind == "stmt" and isinstance(n.stmt, ast.Return) and isinstance(n.stmt.value, ast.Name)]
             ok = bool(rets)
+            same_set = {"token": {"token_eof_ok"}, "token_eof_ok": {"token"}, "token_newline_eof_ok": set()}[name]
+            rd_f = reaching_defs(cfg)
             for r in rets:
                 var = r.stmt.value.id
+                # the token comes straight from a sibling accessor that filters through the same set (checked on its own)
+                ds_ = [cfg.nodes[i] for i in rd_f.get(r.id, {}).get(var, ())]
+                if ds_ and all(isinstance(getattr(d.stmt, "value", None), ast.Call) and is_self_attr(d.stmt.value.func) and d.stmt.value.func.attr in same_set and d.stmt.value.func.attr in meths for d in ds_):
+                    continue
                 deps = cfg.control_deps(r)
                 filt = [d for d, lab in deps if isinstance(d.cond, ast.Compare) and attr_chain(d.cond.left) == (var, "type") and isinstance(d.cond.ops[0], ast.NotIn) and attr_chain(d.cond.comparators[0]) == ("self", setname) and lab == "T"]
                 # a second return of a discarded token is allowed only for "ends the line" (newline-significant accessor)
@@ -103,8 +109,19 @@ def run(ctx: Ctx) -> None:
                     ok = False
         ctx.ob("R9.2", f"lexer:TokenStream.{name}|returns only tokens outside {setname}", ok,
                msg=f"{name} can return a token without testing it against {setname}: a layout token reaches the parser", node=fn or lex.cls(ts), mod=lex)
+    def delegates(fn_: ast.FunctionDef) -> Optional[str]:
+        """`return self.<other accessor>(...)` as the whole body: the other accessor's obligations carry over"""
+        body = [s_ for s_ in fn_.body if not (isinstance(s_, ast.Expr) and isinstance(s_.value, ast.Constant))]
+        if len(body) == 1 and isinstance(body[0], ast.Return) and isinstance(body[0].value, ast.Call) and is_self_attr(body[0].value.func) and body[0].value.func.attr in meths \
+                and body[0].value.func.attr != fn_.name:
+            return body[0].value.func.attr
+        return None
+
     for name, fn in meths.items():
         if name in FILTERING or name.startswith("_") or name in ("current_location", "get_doxygen", "get_doxygen_after", "return_token", "return_tokens"):
+            continue
+        if delegates(fn) and delegates(fn) not in FILTERING:
+            ctx.ob("R9.2", f"lexer:TokenStream.{name}|inspects only filtered tokens", True, node=fn, mod=lex, nontrivial=False, detail={"delegates_to": delegates(fn)})
             continue
         # every token whose type/value is inspected comes from a filtering accessor
         cfg = CFG(fn)
@@ -127,6 +144,9 @@ def run(ctx: Ctx) -> None:
     # look-ahead accessors: the token obtained is either handed to the caller or put back, exactly once
     for name, fn in meths.items():
         if name in FILTERING or name.startswith("_") or name in ("current_location", "get_doxygen", "get_doxygen_after", "return_token", "return_tokens"):
+            continue
+        if delegates(fn) and delegates(fn) not in FILTERING:
+            ctx.ob("R9.2", f"lexer:TokenStream.{name}|looked-at token returned or pushed back exactly once", True, node=fn, mod=lex, nontrivial=False, detail={"delegates_to": delegates(fn)})
             continue
         cfg = CFG(fn)
         acq = [n for n in cfg.nodes if n.kind == "stmt" and isinstance(n.stmt, ast.Assign) and isinstance(n.stmt.value, ast.Call) and is_self_attr(n.stmt.value.func) and n.stmt.value.func.attr in FILTERING and isinstance(n.stmt.targets[0], ast.Name)]
